@@ -251,6 +251,55 @@ def job_record_run(nant, nblocks, nsb, prior=None):
     return recs
 
 
+def job_record_run_array(delays, nblocks, nsb):
+    """a real MultiAntennaArray (with sample delays) as the source: after a recording its clock has advanced by exactly
+    the samples the backend accounts for, n*spb*num_branches + one warm-up window (the background's over-read by the
+    largest delay is internal to the array)"""
+    from props.C10 import proxy as gen_proxy
+    recs = []
+    tag = f"C20:record-run-array:{(tuple(delays), nblocks, nsb)}"
+    fs = MemFS()
+    P, taps, Wb, npol = 4, 2, 3, 1
+    with volt_patches(opener=fs.open, proxy=gen_proxy()):
+        be, arr, ws, _, _ = C02.build_array(P, taps, Wb, nsb, npol, delays, noise=True, tone=False, t_start=0.25)
+        t0 = arr.t_start
+        be.record('/mem/o', num_blocks=nblocks, length_mode='num_blocks', header_dict={}, digitize=True, verbose=False, load_template=False)
+        t1 = arr.t_start
+        be.record('/mem/p', num_blocks=nblocks, length_mode='num_blocks', header_dict={}, digitize=True, verbose=False, load_template=False)
+        t2 = arr.t_start
+    want = (nblocks * be.samples_per_block * P + taps * P) / 1024.0
+    r, m = core.check([z3.Or(lift(t1) - lift(t0) != RV(want), lift(t2) - lift(t1) != RV(want))], timeout_ms=30000)
+    recs.append(q(tag, r, detail=f"{t0} -> {t1} -> {t2}"))
+    if r == 'sat':
+        recs.append(cex('C20:record-run-array:clock', f"array clock advanced by {float(t1) - float(t0)!r} and {float(t2) - float(t1)!r} s over two recordings of {nblocks} blocks, the samples drawn last {want!r} s each", dict(fn='array_clock', delays=list(delays), nblocks=nblocks, nsb=nsb), name=tag))
+    return recs
+
+
+def replay_array_clock(p):
+    import os
+    import shutil
+    import tempfile
+    from setigen.voltage import backend as bk, polyphase_filterbank as pf, quantization as qz, antenna as an
+    delays, nblocks = p['delays'], p['nblocks']
+    arr = an.MultiAntennaArray(num_antennas=len(delays), sample_rate=1024.0, num_pols=1, delays=list(delays), t_start=0.25, seed=1)
+    for a in arr.antennas:
+        a.x.add_noise(0, 1)
+    arr.bg_x.add_noise(0, 1)
+    be = bk.RawVoltageBackend(arr, qz.RealQuantizer(), pf.PolyphaseFilterbank(num_taps=2, num_branches=4), qz.ComplexQuantizer(), start_chan=0, num_chans=2,
+                              block_size=6 * len(delays) * 2 * 2, blocks_per_file=2, num_subblocks=p['nsb'])
+    d = tempfile.mkdtemp(prefix='c20a_', dir='/var/tmp')
+    try:
+        ts = [arr.t_start]
+        for k in range(2):
+            be.record(os.path.join(d, f'o{k}'), num_blocks=nblocks, length_mode='num_blocks', header_dict={}, verbose=False, load_template=False)
+            ts.append(arr.t_start)
+    finally:
+        shutil.rmtree(d, ignore_errors=True)
+    want = (nblocks * be.samples_per_block * 4 + 2 * 4) / 1024.0
+    adv = [ts[1] - ts[0], ts[2] - ts[1]]
+    return any(abs(a - want) > 1e-12 for a in adv), f"array (delays {delays}) clock advanced by {adv} s over two recordings; the samples drawn last {want} s each"
+
+
 def _helpers_total(npol, bits):
     recs = []
     taps, P, nc, nant, srv = 2, 8, 2, 1, 1024.0
@@ -493,7 +542,7 @@ def replay_total_fp(p):
     return False, 'total_obs_num_samples exact on all candidates'
 
 
-REPLAYS = {'total_fp': replay_total_fp, 'record': replay_record, 'num_blocks': replay_num_blocks, 'ctor': replay_ctor, 'helpers': replay_helpers}
+REPLAYS = {'array_clock': replay_array_clock, 'total_fp': replay_total_fp, 'record': replay_record, 'num_blocks': replay_num_blocks, 'ctor': replay_ctor, 'helpers': replay_helpers}
 
 
 def main():
@@ -524,6 +573,8 @@ def main():
                 if nblocks == 2:
                     for prior in ('completed', 'aborted'):
                         jobs.append(('job_record_run', (nant, nblocks, nsb, prior)))
+    for (delays, nb_, nsb_) in (((0, 3), 2, 1), ((2, 0, 5), 1, 2), ((0, 0), 2, 2)):
+        jobs.append(('job_record_run_array', (delays, nb_, nsb_)))
     jobs.append(('job_helpers', ()))
     jobs.append(('job_record_lengths_fp', ()))
     ck.bounds = dict(configs=space, windows_per_block='symbolic integer >= 1', requested_blocks='symbolic integer <= 10^6; input blocks symbolic <= 10^6', durations='symbolic real <= 10^6 s', executed_recordings='1..3 blocks')
